@@ -79,15 +79,32 @@ def source_def(fn) -> ast.FunctionDef:
 
 # ------------------------------------------------------------------------------------------------ abstract python values
 
+REGEX_MATCH = object()       # stands for a (truthy, not None) re.Match
+
+
 class DecStr:
     """The str that is the canonical decimal representation of an integer term (str(int) / the text of an xsd integer)."""
     pytype = 'str'
 
-    def __init__(self, term):
+    def __init__(self, term, nonneg=False):
         self.term = term
+        self.nonneg = nonneg        # the creator knows that the integer is >= 0 (then the text has no sign)
 
     def sym_int(self, sym, st):
         return self.term
+
+    # lexical facts about a canonical decimal text  -?(0|[1-9][0-9]*)
+    def m_strip(self, sym, st, chars=None):
+        if chars is not None and not (isinstance(chars, str) and all(c in ' \t\n\r' for c in chars)):
+            raise Unsupported('strip() of other characters than XML whitespace on str(int)')
+        return self                 # no whitespace in it
+
+    def m_startswith(self, sym, st, prefix):
+        if prefix != '-':
+            raise Unsupported('startswith() other than the sign on str(int)')
+        if self.nonneg:
+            return False
+        return sym.be.cmp('lt', self.term, 0)
 
     def sym_eq(self, sym, other):
         if isinstance(other, DecStr):
@@ -153,6 +170,8 @@ _CMP = {ast.Lt: 'lt', ast.LtE: 'le', ast.Gt: 'gt', ast.GtE: 'ge', ast.Eq: 'eq', 
 class Sym:
     def __init__(self, fn, be, stubs=None, fields=None, inline=None, unroll=8, prune=False):
         self.fdef = fn if isinstance(fn, ast.FunctionDef) else source_def(fn)
+        # module-level constants of the function's module (str / int / compiled regex) may be named in the body
+        self.globals = {} if isinstance(fn, ast.FunctionDef) else dict(getattr(getattr(fn, '__func__', fn), '__globals__', {}))
         self.be, self.stubs, self.fields, self.inline = be, dict(stubs or {}), dict(fields or {}), dict(inline or {})
         self.unroll, self.prune = unroll, prune
         self.unwind = []          # [(conds, assumes)] of paths that would need more loop iterations than the bound
@@ -376,6 +395,10 @@ class Sym:
                 return st.env[e.id]
             if e.id in self.fields:
                 return self.fields[e.id]
+            import re as _re
+            g = self.globals.get(e.id, NORET)
+            if isinstance(g, (str, int, float, _re.Pattern)) and not isinstance(g, bool):
+                return g
             raise Unsupported('name ' + e.id)
         if isinstance(e, ast.Tuple):
             return tuple(self._expr(x, st) for x in e.elts)
@@ -408,6 +431,8 @@ class Sym:
                 if isinstance(op, (ast.Is, ast.IsNot)):
                     if not (right is None or isinstance(right, bool)):
                         raise Unsupported('`is` with non-singleton')
+                    if right is None and getattr(self.be, 'is_term', lambda _x: False)(left):
+                        raise Unsupported('`is None` on a symbolic term')
                     r = (left is right) if isinstance(op, ast.Is) else (left is not right)
                 elif isinstance(op, (ast.In, ast.NotIn)):
                     r = self.contains(left, right, st)
@@ -525,6 +550,12 @@ class Sym:
                 return meth(self, st, *args)
             if isinstance(obj, str) and all(isinstance(a, (str, int)) for a in args):
                 return getattr(obj, e.func.attr)(*args)
+            import re as _re
+            if isinstance(obj, _re.Pattern) and e.func.attr == 'fullmatch' and len(args) == 1 and isinstance(args[0], DecStr):
+                # does the pattern accept EVERY canonical decimal text -?(0|[1-9][0-9]*) ? decided for the integer patterns in use
+                if obj.pattern in (r'[+-]?[0-9]+', r'[+-]?\d+', r'[-+]?[0-9]+'):
+                    return REGEX_MATCH
+                raise Unsupported('regex on str(int): ' + obj.pattern)
         raise Unsupported('call ' + name)
 
     def builtin(self, name, args, st):
